@@ -28,9 +28,9 @@ def tmpdir():
 _counter = [0]
 
 
-def tmpfile(data: bytes, suffix: str) -> str:
+def tmpfile(data: bytes, suffix: str, name: str = None) -> str:
     _counter[0] += 1
-    p = os.path.join(tmpdir(), f"f{_counter[0] % 64}{suffix}")
+    p = os.path.join(tmpdir(), f"{name}{suffix}" if name else f"f{_counter[0] % 64}{suffix}")
     with open(p, "wb") as f:
         f.write(data)
     return p
